@@ -779,6 +779,25 @@ func (sc *SCtx) call(x *ECall) (Val, error) {
 			return scalar(g.errIs(a.T, b.T), types.Typ[types.Bool]), nil
 		case "seen":
 			return sc.seen(x)
+		case "disjoint":
+			// disjoint(w, r): the writable window of slice w (off..off+cap) does not
+			// overlap the readable window of slice r (off..off+len)
+			if len(x.Args) != 2 {
+				return Val{}, fmt.Errorf("disjoint takes two slices")
+			}
+			w, err := sc.eval(x.Args[0])
+			if err != nil {
+				return Val{}, err
+			}
+			r, err := sc.eval(x.Args[1])
+			if err != nil {
+				return Val{}, err
+			}
+			if w.K != VSlice || r.K != VSlice {
+				return Val{}, fmt.Errorf("disjoint takes two slices")
+			}
+			t := Or(Ne(w.F[0].T, r.F[0].T), Le(Add(w.F[1].T, w.F[3].T), r.F[1].T), Le(Add(r.F[1].T, r.F[2].T), w.F[1].T))
+			return scalar(t, types.Typ[types.Bool]), nil
 		case "inmap":
 			// inmap(m, k): k is a key of m
 			if len(x.Args) != 2 {
